@@ -86,9 +86,10 @@ def run_pointwise(L, tables, kern, m, mask, a, b, r0, alias, off=0):
     """Runs one pointwise kernel. a, b, r0: (m x 2) integer arrays. alias in none|ra|rb|rab|ab.
     Returns ((m x 2) float result, None) or (None, reason)."""
     name, layout, kind, how, ctor, step = kern
-    A = Buf(16 * m, off=off, fill=0x44)
-    B = A if alias == "ab" else Buf(16 * m, off=off, fill=0x55)
-    R = A if alias in ("ra", "rab") else (B if alias == "rb" else Buf(16 * m, off=off, fill=0x66))
+    offa, offb, offr = off if isinstance(off, (tuple, list)) else (off, off, off)       # one offset for all, or one per operand
+    A = Buf(16 * m, off=offa, fill=0x44)
+    B = A if alias == "ab" else Buf(16 * m, off=offb, fill=0x55)
+    R = A if alias in ("ra", "rab") else (B if alias == "rb" else Buf(16 * m, off=offr, fill=0x66))
     if alias == "rab":
         B = A
     A.f64[:] = to_layout(layout, a)
